@@ -281,7 +281,14 @@ impl<F: Future> Future for Driven<F> {
                 this.fut = None;
                 Poll::Ready(Some(v))
             }
-            Poll::Pending => Poll::Pending,
+            Poll::Pending => {
+                if this.cancel_after.is_some() {
+                    // a call that is going to be dropped is polled again whenever the scheduler says so, not only
+                    // when something happened for it: the drop can then come before the driver has even seen the request
+                    cx.waker().wake_by_ref();
+                }
+                Poll::Pending
+            }
         }
     }
 }
@@ -465,6 +472,17 @@ pub async fn run_client(client: usize, script: ClientScript, ldap: Ldap, opts: C
                         world::ev(EvKind::Note(format!("id counter set to {last}")));
                     }
                 }
+            }
+            Step::ProbeCert => {
+                let ret = match ldap.as_mut() {
+                    Some(l) => Ret::Cert(match l.get_peer_certificate().await {
+                        Ok(None) => "none".into(),
+                        Ok(Some(_)) => "some".into(),
+                        Err(_) => "err".into(),
+                    }),
+                    None => Ret::Skipped,
+                };
+                world::ev(EvKind::Return { client, step: ix, token: "cert".into(), ret, last_id: 0 });
             }
             Step::Probe => {
                 let ret = match ldap.as_mut() {
